@@ -285,7 +285,23 @@ func (z *Zone) Responder(hook func(q Query, rcode int, ans []AnsRec)) func(q Que
 		if rc == 0 && len(z.Poison) > 0 {
 			var p []AnsRec
 			for _, pr := range z.Poison {
-				p = append(p, AnsRec{pr.Owner, pr.Type, pr.Rec})
+				owner := pr.Owner
+				if owner == "$LOOKALIKE" {
+					switch {
+					case strings.ContainsAny(q.Name, "sS"):
+						i := strings.IndexAny(q.Name, "sS")
+						owner = q.Name[:i] + "\u017f" + q.Name[i+1:]
+					case strings.ContainsAny(q.Name, "kK"):
+						i := strings.IndexAny(q.Name, "kK")
+						owner = q.Name[:i] + "\u212a" + q.Name[i+1:]
+					default:
+						owner = "evil.example"
+					}
+					if !validDNS(strings.TrimSuffix(owner, ".")) {
+						owner = "evil.example" // the longer character does not fit the label
+					}
+				}
+				p = append(p, AnsRec{owner, pr.Type, pr.Rec})
 			}
 			if z.PoisonFirst {
 				full = append(p, ans...)
